@@ -1000,3 +1000,81 @@ _add(
         tags=("kern",),
     )
 )
+
+# one form with cell integrals over two different meshes: two integral_data entries with the
+# same (type, subdomain id)
+_add(
+    Request(
+        "functional_over_two_meshes",
+        "forms",
+        [
+            'meshA = ufl.Mesh(basix.ufl.element("Lagrange", "triangle", 1, shape=(2,)))',
+            'meshB = ufl.Mesh(basix.ufl.element("Lagrange", "triangle", 1, shape=(2,)))',
+            'el = basix.ufl.element("Lagrange", "triangle", 1)',
+            "f = ufl.Coefficient(ufl.FunctionSpace(meshA, el))",
+            "g = ufl.Coefficient(ufl.FunctionSpace(meshB, el))",
+            "M = f * ufl.dx(meshA) + g * g * ufl.dx(meshB)",
+            "objs = [M]",
+        ],
+        tags=("family", "identfam", "multidomain"),
+    )
+)
+
+# ---- additions after the fourth round of seeded changes ---------------------------------------
+# subdomain-id groups whose digits concatenate to the same string ((1, 2) vs (12,); (1, 123) vs
+# (11, 23)): names built from ids must keep them apart
+_add(
+    _lagrange_form(
+        "subdomain_groups_concat_tri", "triangle", 1, "0",
+        extra=["k1 = ufl.Constant(mesh)", "k2 = ufl.Constant(mesh)"], tags=("family", "identfam", "kern"),
+    )
+)
+POOL["subdomain_groups_concat_tri"].stmts[-2] = (
+    "a = k1 * u * v * ufl.dx(1) + k1 * u * v * ufl.dx(2) + k2 * u * v * ufl.dx(12) "
+    "+ u * v * ufl.ds((1, 123)) + 2 * u * v * ufl.ds((11, 23))"
+)
+# integer tables (facet-edge vertices of a tetrahedron) next to float literals of integral value
+_add(
+    Request(
+        "facet_edge_vectors_tet",
+        "forms",
+        [
+            _mesh("tetrahedron"),
+            'el = basix.ufl.element("Lagrange", "tetrahedron", 1)',
+            "V = ufl.FunctionSpace(mesh, el)",
+            "v = ufl.TestFunction(V)",
+            "fev = ufl.classes.FacetEdgeVectors(mesh)",
+            "L = fev[0, 0] * v * ufl.ds + 2.0 * fev[1, 2] * v * ufl.ds",
+            "objs = [L]",
+        ],
+        tags=("kern", "facet"),
+    )
+)
+_add(
+    _lagrange_form(
+        "literal_floats_tri", "triangle", 1,
+        "2.0 * k * u * v + 3.0 * f * u * v + 4.0 * ufl.inner(ufl.grad(u), ufl.grad(v)) + 1.0 * k * k * u * v",
+        extra=["k = ufl.Constant(mesh)", "f = ufl.Coefficient(V)"], tags=("kern",),
+    )
+)
+# linear forms whose only factor is constant on the cell, with more quadrature points than dofs
+_add(
+    Request(
+        "linear_cellwise_const_qdeg4_tri",
+        "forms",
+        [
+            _mesh("triangle"),
+            'el = basix.ufl.element("Lagrange", "triangle", 1)',
+            'el0 = basix.ufl.element("Discontinuous Lagrange", "triangle", 0)',
+            "V = ufl.FunctionSpace(mesh, el)",
+            "V0 = ufl.FunctionSpace(mesh, el0)",
+            "v = ufl.TestFunction(V)",
+            "k = ufl.Constant(mesh)",
+            "g = ufl.Coefficient(V0)",
+            'L = k * v * ufl.dx(metadata={"quadrature_degree": 4})',
+            'L0 = g * v * ufl.dx(metadata={"quadrature_degree": 5})',
+            "objs = [L, L0]",
+        ],
+        tags=("kern",),
+    )
+)
